@@ -639,6 +639,17 @@ func (fx *FnCtx) frameCheck(st *State, heap, ref string, at ast.Node) {
 	if fx.fc == nil || fx.lemmaMode {
 		return
 	}
+	// only-writer declarations: a DIRECT store to such a field of an object that existed at entry, outside the listed
+	// functions, is a violation whatever the function's own frame allows
+	for _, ow := range fx.cs.OnlyWriters {
+		if ow.Heaps[heap] && !ow.Funcs[fx.key] {
+			goal := "false"
+			if ref != "" {
+				goal = "(not (select " + fx.heapInitConst(allocHeap, allocSort) + " " + ref + "))"
+			}
+			fx.emit(st, "only-writer["+ow.Label+"]", "frame", ow.Tags, goal, "direct store to "+heap+" outside its declared writers", fx.pos(at))
+		}
+	}
 	var disj []string
 	for _, m := range fx.modsEntry {
 		if m.heap != heap {
